@@ -242,9 +242,9 @@ def audit_sources():
 ALLOWED_AXIOMS = set()
 
 
-def check_props(prop_file, theorems):
-    """(re)compile props/<prop_file>.v, parse its Print Assumptions transcript.
-       returns (obligations, discharged, details, failures)"""
+def check_props(prop_file, theorems, tier="quick"):
+    """(re)compile props/<prop_file>.v, parse its Print Assumptions transcript (and, in the
+       thorough tier, run coqchk on it).  returns (obligations, discharged, details, failures)"""
     failures = []
     vo = os.path.join(COQ, "props", prop_file + ".vo")
     with Lock("coq"):
@@ -281,7 +281,29 @@ def check_props(prop_file, theorems):
     if bad:
         failures.append("forbidden vernacular in sources: " + "; ".join(bad[:10]))
         discharged = 0
+    if tier == "thorough" or os.environ.get("VERIF_TIER") == "thorough":
+        ok, summary = coqchk(prop_file)
+        details["coqchk"] = summary
+        if not ok:
+            failures.append("coqchk: " + summary)
+            discharged = 0
     return len(theorems), discharged, details, failures
+
+
+def coqchk(prop_file):
+    """thorough tier: re-check the compiled property file and everything it depends on with the
+       independent checker; returns (ok, axioms_text)"""
+    with Lock("coq"):
+        out = sh("timeout 3000 coqchk -o -silent -Q model Cedar -Q proofs Cedar -Q props Cedar Cedar.%s 2>&1" % prop_file,
+                 cwd=COQ, timeout=3100, check=False)
+    m = re.search(r"\* Axioms:\s*(.*?)\n\s*\n\* Constants/Inductives relying on type-in-type:\s*(.*?)\n\s*\n"
+                  r"\* Constants/Inductives relying on unsafe \(co\)fixpoints:\s*(.*?)\n\s*\n"
+                  r"\* Inductives whose positivity is assumed:\s*(.*?)\n", out, flags=re.S)
+    if not m:
+        return False, "coqchk produced no context summary: " + out[-1500:]
+    fields = [x.strip() for x in m.groups()]
+    ok = all(f == "<none>" for f in fields)
+    return ok, "axioms=%s type-in-type=%s unsafe-fix=%s assumed-positivity=%s" % tuple(fields)
 
 
 # ------------------------------------------------------------------ evidence / violations
